@@ -22,8 +22,11 @@
 #include <hgraph/types/static_schema.h>
 #include <hgraph/types/type_resolution.h>
 
+#include <atomic>
 #include <chrono>
 #include <future>
+#include <map>
+#include <mutex>
 #include <memory>
 #include <optional>
 #include <thread>
@@ -251,6 +254,136 @@ namespace
         result += "]";
         return result;
     }
+
+    // ------------------------------------------------------------------ real threads (monitor-only stream)
+    // `stress <producers> <messages> <cap> <mode 0 blocking | 1 try+retry | 2 mixed>`: the REAL real-time
+    // executor runs on its own thread (no hooks installed: production clock, mutexes and condition
+    // variables), the producers hammer the sender concurrently.  The interleaving is whatever the
+    // OS picks; the output holds only the verdict-level facts the monitor needs.
+    std::string run_stress(int producers, int messages, std::size_t cap, int mode)
+    {
+        const auto *ts_int       = ts_type<TS<Int>>();
+        const auto *input_schema = hgraph::testing::single_input_schema(*ts_int);
+        std::mutex                                        mu;
+        std::vector<std::pair<std::int64_t, std::int64_t>> delivered;   // (evaluation time, value)
+        std::atomic<bool>                                 have_sender{false};
+        PushSourceSender                                  sender;
+
+        NodeTypeMetaData schema;
+        schema.display_name = "hgv_push_stress_sink";
+        schema.input_schema = input_schema;
+        schema.node_kind    = NodeKind::Sink;
+        NodeCallbacks callbacks;
+        callbacks.evaluate = [&](const NodeView &view, DateTime evaluation_time) {
+            auto root   = view.input(evaluation_time);
+            auto bundle = root.as_bundle();
+            auto in     = bundle[0];
+            std::lock_guard lock{mu};
+            delivered.emplace_back(us(evaluation_time), in.value().checked_as<Int>());
+        };
+        GraphBuilder gb;
+        gb.add_node(make_push_source_node(*ts_int, make_push_source_queue_policy(*ts_int, cap), [&](PushSourceSender s) {
+            sender = std::move(s);
+            have_sender.store(true, std::memory_order_release);
+        }));
+        gb.add_node(NodeBuilder::native(std::move(schema), std::move(callbacks),
+                                        hgraph::testing::single_input_endpoint(*input_schema, *ts_int)));
+        gb.add_edge(GraphEdge{.source_node = make_graph_edge_source(0), .source_path = {}, .target_node = 1, .target_path = {0}});
+
+        const DateTime start = hgraph::testing::wall_now();
+        GraphExecutorBuilder eb;
+        eb.graph_builder(std::move(gb)).mode(GraphExecutorMode::RealTime).start_time(start).end_time(start + TimeDelta{300'000'000});
+        GraphExecutorValue executor = eb.make_executor();
+        GraphExecutorView  view     = executor.view();
+        std::string        run_error;
+        std::thread        runner([&] {
+            try { view.run(); }
+            catch (const std::exception &e) { run_error = e.what(); }
+        });
+        const auto t0 = std::chrono::steady_clock::now();
+        while (!have_sender.load(std::memory_order_acquire) && std::chrono::steady_clock::now() - t0 < std::chrono::seconds{60})
+        {
+            std::this_thread::sleep_for(std::chrono::microseconds{100});
+        }
+        std::atomic<std::int64_t> refused{0}, failed{0};
+        std::atomic<std::size_t>  max_pending{0};
+        std::vector<std::thread>  threads;
+        const std::size_t         total = static_cast<std::size_t>(producers) * static_cast<std::size_t>(messages);
+        if (have_sender.load())
+        {
+            for (int p = 0; p < producers; ++p)
+            {
+                threads.emplace_back([&, p] {
+                    PushSourceSender mine = sender;
+                    for (int k = 0; k < messages; ++k)
+                    {
+                        const std::int64_t value = static_cast<std::int64_t>(p) * 1'000'000 + k;
+                        const bool blocking = mode == 0 || (mode == 2 && (p + k) % 2 == 0);
+                        if (blocking) { if (!mine.send_blocking(Int{value})) { ++failed; } }
+                        else
+                        {
+                            const auto s0 = std::chrono::steady_clock::now();
+                            while (!mine.try_send(Int{value}))
+                            {
+                                ++refused;
+                                std::this_thread::yield();
+                                if (std::chrono::steady_clock::now() - s0 > std::chrono::seconds{60}) { ++failed; break; }
+                            }
+                        }
+                    }
+                });
+            }
+        }
+        // sample pending_items while the producers run
+        auto sample = [&] {
+            auto m = view.graph().node_at(0).inspection_metrics().pending_items;
+            if (m.has_value())
+            {
+                std::size_t cur = max_pending.load();
+                while (*m > cur && !max_pending.compare_exchange_weak(cur, *m)) {}
+            }
+        };
+        bool timeout = false;
+        const auto t1 = std::chrono::steady_clock::now();
+        for (;;)
+        {
+            sample();
+            std::size_t n;
+            { std::lock_guard lock{mu}; n = delivered.size(); }
+            if (n >= total - static_cast<std::size_t>(failed.load()) && n >= total) { break; }
+            if (std::chrono::steady_clock::now() - t1 > std::chrono::seconds{90}) { timeout = true; break; }
+            std::this_thread::sleep_for(std::chrono::microseconds{50});
+        }
+        if (timeout) { view.request_stop(); }      // releases parked senders through the graph stop
+        for (auto &t : threads) { t.join(); }
+        view.request_stop();
+        runner.join();
+
+        // verdict-level facts
+        std::lock_guard lock{mu};
+        std::map<std::int64_t, std::int64_t> last;     // producer -> last k delivered
+        std::size_t dup = 0, order_bad = 0, time_bad = 0;
+        std::map<std::int64_t, int> seen;
+        for (std::size_t i = 0; i < delivered.size(); ++i)
+        {
+            const auto [t, v] = delivered[i];
+            const std::int64_t p = v / 1'000'000, k = v % 1'000'000;
+            if (seen[v]++ > 0) { ++dup; }
+            auto it = last.find(p);
+            if (it != last.end() && k <= it->second) { ++order_bad; }
+            if (it == last.end() && k != 0) { ++order_bad; }
+            if (it != last.end() && k != it->second + 1) { ++order_bad; }
+            last[p] = k;
+            if (i > 0 && t <= delivered[i - 1].first) { ++time_bad; }
+        }
+        std::string r = "stress sent=" + std::to_string(total) + " failed=" + std::to_string(failed.load()) +
+                        " delivered=" + std::to_string(delivered.size()) + " dup=" + std::to_string(dup) +
+                        " order_bad=" + std::to_string(order_bad) + " time_bad=" + std::to_string(time_bad) +
+                        " maxpend=" + std::to_string(max_pending.load()) + " cap=" + std::to_string(cap) +
+                        " refused=" + std::string(refused.load() > 0 ? "some" : "none") +
+                        " timeout=" + (timeout ? "1" : "0") + (run_error.empty() ? "" : " run_error=" + run_error);
+        return r;
+    }
 }  // namespace
 
 int main()
@@ -271,6 +404,12 @@ int main()
                 cap = static_cast<std::size_t>(to_i(w[1]));
                 policy = w[2][0];
                 std::cout << "ok\n";
+            }
+            else if (w[0] == "stress" && w.size() == 5)
+            {
+                std::cout << run_stress(static_cast<int>(to_i(w[1])), static_cast<int>(to_i(w[2])),
+                                        static_cast<std::size_t>(to_i(w[3])), static_cast<int>(to_i(w[4])))
+                          << "\n";
             }
             else if (w[0] == "sched")
             {
